@@ -521,3 +521,40 @@ func renamedType(p *packages.Package, name string) *types.Named {
 	}
 	return nil
 }
+
+// fieldRemoved: the recorded anchor field typ.name is gone and so is every field of its recorded type in typ (directly or one
+// struct level down) — it was removed from the representation, not renamed or moved.
+func fieldRemoved(p *packages.Package, typ, name string) bool {
+	tab := loadAnchors()
+	want, ok := tab.Fields[p.PkgPath+"|"+typ+"|"+name]
+	if !ok {
+		return false
+	}
+	n := lookupType(p, typ)
+	if n == nil {
+		return false
+	}
+	st, isS := n.Underlying().(*types.Struct)
+	if !isS {
+		return false
+	}
+	for i := 0; i < st.NumFields(); i++ {
+		f := st.Field(i)
+		if typeStr(f.Type()) == want {
+			// another recorded anchor of the same type does not count as a candidate
+			if _, known := tab.Fields[p.PkgPath+"|"+typ+"|"+f.Name()]; !known {
+				return false
+			}
+		}
+		if nn := namedOf(f.Type()); nn != nil {
+			if ns, isNS := nn.Underlying().(*types.Struct); isNS && nn.Obj().Pkg() != nil && nn.Obj().Pkg().Path() == p.PkgPath {
+				for j := 0; j < ns.NumFields(); j++ {
+					if typeStr(ns.Field(j).Type()) == want {
+						return false
+					}
+				}
+			}
+		}
+	}
+	return true
+}
